@@ -473,7 +473,7 @@ func report(eng *Engine, prop, tier string, seed int, decls []*HarnessDecl, runs
 			}
 			path := writeReplay(prop, tier, v)
 			reproduced := true
-			if !noReplay && kf == nil {
+			if !noReplay {
 				rf := ReplayFile{}
 				b, _ := os.ReadFile(path)
 				json.Unmarshal(b, &rf)
@@ -485,7 +485,13 @@ func report(eng *Engine, prop, tier string, seed int, decls []*HarnessDecl, runs
 				}
 			}
 			if kf != nil {
-				lines = append(lines, fmt.Sprintf("KNOWN-FINDING: property=%s %s [%s %s:%s]", prop, kf.Summary, v.Harness, v.Kind, v.ID))
+				note := "reproduced natively"
+				if noReplay {
+					note = "not replayed"
+				} else if !reproduced {
+					note = "did NOT reproduce natively this time"
+				}
+				lines = append(lines, fmt.Sprintf("KNOWN-FINDING: property=%s %s [%s %s:%s; %s; replay=%s]", prop, kf.Summary, v.Harness, v.Kind, v.ID, note, path))
 				knownMatched = append(knownMatched, v.Harness+" "+v.Kind+":"+v.ID)
 				continue
 			}
